@@ -97,6 +97,57 @@ fn observe_effects(e: Effects, model: &Set) -> Result<(), String> {
     if items != exp_items {
         return Err(format!("iter() yields {:?} for the set {name}, expected {:?}", items, exp_items));
     }
+    // ... through every way the Iterator protocol can drain it: after k calls of next() the rest, taken by a `for`
+    // loop, by fold-based consumers (for_each, count, last, fold), by nth / skip, by a clone of the iterator, must
+    // be exactly the remaining members in order; a size_hint, where given, must bracket the true count; an exhausted
+    // iterator stays exhausted
+    for k in 0..=exp_items.len() {
+        let advanced = || {
+            let mut it = e.iter();
+            for _ in 0..k {
+                it.next();
+            }
+            it
+        };
+        let rest = &exp_items[k..];
+        let via_loop: Vec<Effects> = {
+            let mut v = vec![];
+            for x in advanced() {
+                v.push(x);
+            }
+            v
+        };
+        let mut via_for_each = vec![];
+        advanced().for_each(|x| via_for_each.push(x));
+        let via_fold = advanced().fold(vec![], |mut v, x| {
+            v.push(x);
+            v
+        });
+        let via_clone: Vec<Effects> = advanced().clone().collect();
+        let count = advanced().count();
+        let last = advanced().last();
+        let (lo, hi) = advanced().size_hint();
+        for (how, got) in [("for loop", &via_loop), ("for_each", &via_for_each), ("fold", &via_fold), ("clone().collect()", &via_clone)] {
+            if got.as_slice() != rest {
+                return Err(format!("iter() yields {got:?} through {how} after {k} call(s) of next() for the set {name}, expected {rest:?}"));
+            }
+        }
+        if count != rest.len() || last != rest.last().copied() || lo > rest.len() || hi.map_or(false, |h| h < rest.len()) {
+            return Err(format!("iter() yields count {count}, last {last:?}, size_hint ({lo}, {hi:?}) after {k} call(s) of next() for the set {name}, expected {} remaining member(s) {rest:?}", rest.len()));
+        }
+        for n in 0..=rest.len() {
+            if advanced().nth(n) != rest.get(n).copied() || advanced().skip(n).next() != rest.get(n).copied() {
+                return Err(format!("iter() yields nth({n}) = {:?}, skip({n}).next() = {:?} after {k} call(s) of next() for the set {name}, expected {:?}", advanced().nth(n), advanced().skip(n).next(), rest.get(n)));
+            }
+        }
+    }
+    {
+        let mut it = e.iter();
+        while it.next().is_some() {}
+        if it.next().is_some() || it.next().is_some() {
+            return Err(format!("iter() yields another item after returning None for the set {name}"));
+        }
+    }
     // debug form: names exactly the members (punctuation is not prescribed)
     // ... whatever width, fill, alignment or precision the caller's format spec carries (a derived Debug of a struct
     // holding an Effects hands its spec down); fills are punctuation, so padding cannot add or hide a name
